@@ -64,6 +64,8 @@ type vfLink struct {
 	// wholeTrigger: triggers are recognised within one read (per-read detection is the documented contract), so the
 	// segmenter never splits a piece that carries the trigger marker.
 	wholeTrigger bool
+	// throttle: sleep after every data message so that a transfer lasts long enough for an event to land
+	throttle time.Duration
 	line    []byte
 	lineOff int64
 	skip    int // raw bytes of a binary block still to pass
@@ -200,6 +202,13 @@ func (l *vfLink) feed(p []byte) {
 			}
 			l.deliver(data, off)
 			off += int64(len(pc.data))
+		}
+		if l.throttle > 0 {
+			for _, m := range pc.post {
+				if m.Typ == "BIN" || (m.Len > 64 && !l.binary) {
+					time.Sleep(l.throttle)
+				}
+			}
 		}
 		if onMsg != nil {
 			for _, m := range pc.post {
